@@ -167,6 +167,21 @@ def dtype_part(ck, tier):
               "upper": np.array([4.0, 4.0, 4.0]), "inv_mass": np.array([1.0, 2.0, 0.5]),
               "walkers": np.array([[1.0, -2.0, 3.0], [1.0, 0.0, 0.0], [-1.0, 2.0, 1.0], [0.0, 1.0, -2.0], [2.0, -1.0, 1.0]])}
         it = dict(fl, start=fl["start"].astype(int), walkers=fl["walkers"].astype(int), lower=fl["lower"].astype(int), upper=fl["upper"].astype(int))
+        # ... and as single-precision arrays: the chain itself runs in double precision
+        f32 = dict(fl, start=fl["start"].astype(np.float32), walkers=fl["walkers"].astype(np.float32))
+        ck.case(("dtype32", cls_name))
+        try:
+            a32, b32 = _mk(cls_name, fl, 78 + seed()), _mk(cls_name, f32, 78 + seed())
+            for _ in range(12):
+                a32[1]()
+                b32[1]()
+            ra32, rb32 = a32[2](), b32[2]()
+            if not all(np.asarray(y).dtype == np.float64 and np.array_equal(np.asarray(x, dtype=float), np.asarray(y, dtype=float)) for x, y in zip(ra32, rb32)):
+                ck.violation("a sampler built from single-precision whole-number inputs evolves (in double precision) like the one built from the equal "
+                             "double-precision inputs", {"class": cls_name, "dtypes_returned": [str(np.asarray(y).dtype) for y in rb32]},
+                             site=f"{cls_name}.__init__:dtype")
+        except Exception as ex:
+            ck.violation("a sampler built from single-precision inputs raised", {"class": cls_name, "error": repr(ex)[:300]}, site=f"{cls_name}.__init__:dtype")
         ck.case(("dtype", cls_name))
         try:
             a, b = _mk(cls_name, fl, 77 + seed()), _mk(cls_name, it, 77 + seed())
